@@ -1,6 +1,8 @@
 package main
 
 import (
+	"context"
+	"os/exec"
 	"encoding/json"
 	"flag"
 	"fmt"
@@ -148,6 +150,58 @@ func loadKnownFindings() (known []knownFinding, fixed []string) {
 		}
 	}
 	return
+}
+
+// bounded stand-ins: lines `bounded <Cxx> <pkg> <test file under /verif> <TestName> <bound ...>` in specs/properties.conf
+type boundedSpec struct{ pkg, file, test, bound string }
+
+var boundedNotes []string
+
+func boundedChecks(id string) []boundedSpec {
+	data, err := os.ReadFile(filepath.Join(verifDir, "specs", "properties.conf"))
+	if err != nil {
+		return nil
+	}
+	var out []boundedSpec
+	for _, ln := range strings.Split(string(data), "\n") {
+		f := strings.Fields(ln)
+		if len(f) >= 5 && f[0] == "bounded" && f[1] == id {
+			out = append(out, boundedSpec{pkg: f[2], file: f[3], test: f[4], bound: strings.Join(f[5:], " ")})
+		}
+	}
+	return out
+}
+
+// runBounded injects the test file into the package with `go test -overlay` (nothing is written to the repository).
+func runBounded(bs boundedSpec, repo, workDir string) (string, string, bool) {
+	os.MkdirAll(workDir, 0o755)
+	ov := filepath.Join(workDir, "overlay-"+sanitize(bs.test)+".json")
+	target := filepath.Join(repo, strings.TrimPrefix(bs.pkg, "./"), "zz_verif_bounded_test.go")
+	js, _ := json.Marshal(map[string]interface{}{"Replace": map[string]string{target: filepath.Join(verifDir, bs.file)}})
+	os.WriteFile(ov, js, 0o644)
+	ctx, cancel := context.WithTimeout(context.Background(), 15*time.Minute)
+	defer cancel()
+	cmd := exec.CommandContext(ctx, "go", "test", "-overlay", ov, "-vet=off", "-count=1", "-timeout", "600s", "-run", "^"+bs.test+"$", "-v", bs.pkg)
+	cmd.Dir = repo
+	cmd.Env = append(os.Environ(), "GOFLAGS=-mod=mod", "GOPROXY=off", "GOSUMDB=off", "GOTOOLCHAIN=local")
+	t0 := time.Now()
+	outb, err := cmd.CombinedOutput()
+	out := string(outb)
+	if len(out) > 6000 {
+		out = out[len(out)-6000:]
+	}
+	ok := err == nil && strings.Contains(out, "--- PASS: "+bs.test)
+	detail := ""
+	if m := regexp.MustCompile(`bounded stand-in: ([0-9]+) inputs checked`).FindStringSubmatch(out); m != nil {
+		detail = m[1] + " inputs, "
+	}
+	status := "passed"
+	if !ok {
+		status = "FAILED"
+	}
+	note := fmt.Sprintf("BOUNDED (not a proof) %s in %s: %s; %s%.1fs; bound: %s", bs.test, bs.pkg, status, detail, time.Since(t0).Seconds(), bs.bound)
+	fmt.Println(note)
+	return note, out, ok
 }
 
 // noEvidence: set for partial (-only) and scratch (--noevidence) runs
@@ -386,6 +440,23 @@ func cmdCheck(args []string) int {
 		violations = append(violations, fmt.Sprintf("VIOLATION property=%s replay=%s obligation=%s vacuous-contract no-failing-input-found", id, path, v))
 		exit = 1
 	}
+	// bounded stand-ins (functions outside the verifier's reach): the real function, every input within a stated bound
+	boundedNotes = nil
+	if *only == "" {
+		for _, bs := range boundedChecks(id) {
+			note, out, ok := runBounded(bs, *repo, workDir)
+			boundedNotes = append(boundedNotes, note)
+			if !ok {
+				os.MkdirAll(replayDir, 0o755)
+				path := filepath.Join(replayDir, "bounded-"+sanitize(bs.test)+".json")
+				js, _ := json.MarshalIndent(map[string]interface{}{"property": id, "obligation": "bounded:" + bs.test, "kind": "bounded stand-in on the real code: the failing input is in the test output",
+					"bound": bs.bound, "rerun": fmt.Sprintf("go test -overlay <%s injected into %s> -vet=off -run %s %s", bs.file, bs.pkg, bs.test, bs.pkg), "test_output": out}, "", " ")
+				os.WriteFile(path, js, 0o644)
+				violations = append(violations, fmt.Sprintf("VIOLATION property=%s replay=%s obligation=bounded:%s failing-input-in-replay-file", id, path, bs.test))
+				exit = 1
+			}
+		}
+	}
 	sort.Strings(knownHits)
 	seenK := map[string]bool{}
 	for _, k := range knownHits {
@@ -541,7 +612,7 @@ func writeEvidence(c *Ctx, id, tier string, seed int, reports []*fnReport, all, 
 		"vacuity_covers_checked": len(covers), "vacuous": nVac,
 		"evaluations": len(all), "distinct_nontrivial": nDis,
 		"rule": "one SMT query per obligation (postcondition conjunct per return, callee precondition, loop invariant init/preservation, frame); non-trivial = discharged as unsat by a solver; names are unique",
-		"bounded": []string{},
+		"bounded": append([]string{}, boundedNotes...),
 	}
 	ev := map[string]interface{}{"property_id": id, "tier": tier, "seed": seed, "level": "proof", "coverage": cov,
 		"assumptions": assumptions, "wall_s": wall, "violations": len(violations)}
